@@ -293,6 +293,27 @@ Fixpoint deps_respected (deps : list (tid * list tid)) (finished : list tid) (de
   | _ :: r => deps_respected deps finished dead r
   end.
 
+(** C03 across a restart: the event records are the journal, and restore drops every dependency on a
+    task that has a terminal record (StateRestorer: `retain_mut`).  So at every prefix of the
+    journal, a task with a failed / cancelled / aborted dependency must itself have a terminal
+    record, or a restart at that point would resubmit it as runnable.  [term] = tasks with a terminal
+    record so far, [fin] = successfully finished ones. *)
+Definition dependents_of (deps : list (tid * list tid)) (t : tid) : list tid :=
+  map fst (filter (fun kv => tid_mem t (snd kv)) deps).
+Fixpoint journal_dep_closed (deps : list (tid * list tid)) (term : list tid) (tr : list item) : bool :=
+  match tr with
+  | [] => true
+  | ISubmitted j ts :: r =>
+      journal_dep_closed (map (fun kv => ((j, fst kv), map (fun d => (j, d)) (snd kv))) ts ++ deps) term r
+  | IEv (EvFinished t) :: r => journal_dep_closed deps (t :: term) r
+  | IEv (EvFailed t _) :: r =>
+      forallb (fun x => tid_mem x term) (dependents_of deps t) && journal_dep_closed deps (t :: term) r
+  | IEv (EvCanceled ts) :: r | IEv (EvAborted ts) :: r =>
+      let term' := ts ++ term in
+      forallb (fun t => forallb (fun x => tid_mem x term') (dependents_of deps t)) ts && journal_dep_closed deps term' r
+  | _ :: r => journal_dep_closed deps term r
+  end.
+
 (** C06: launches of one task carry strictly increasing instance ids. *)
 Fixpoint instances_increase (last : list (tid * N)) (tr : list item) : bool :=
   match tr with
